@@ -490,6 +490,13 @@ func noncanonRun(req wrapReq, resp *drv.Response) error {
 			cfg := &engine.Config{Mode: engine.Native, RecordEvts: locEvents, Permissive: true}
 			err := hc.RunVerifier(cfg, l, l)
 			out := hc.Outcome(err)
+			if out != "accept" && len(only) > 0 {
+				// a targeted leaf (one the canonical-set trace does not show as checked): also with the other limb pair a prover
+				// may supply where the honest split refuses, (0, x)
+				cfg = &engine.Config{Mode: engine.Native, RecordEvts: locEvents, Permissive: true, PermissiveFlavor: 1}
+				err = hc.RunVerifier(cfg, l, l)
+				out = hc.Outcome(err)
+			}
 			lf.Set(old)
 			resp.Count(fmt.Sprintf("noncanon/%s/%s/%s", req.Instance, lf.Path, ks), false)
 			if out == "accept" {
